@@ -2,6 +2,7 @@ import PewProofs.Filters
 import PewProofs.FiltersFloat
 import PewProofs.FiltersArith
 import PewProofs.FiltersPads
+import PewProofs.FiltersHdr
 
 /-! # C13 — property theorems (statements only depend on `PewModel.Filters`) -/
 namespace Pew.Filters
@@ -67,7 +68,8 @@ theorem sq_form_iff (d t v : Rat) (ht : 0 ≤ t) (hv : 0 ≤ v) :
 
 /-- the variance the test is applied to is never negative -/
 theorem popvar_nonneg (l : List Rat) : 0 ≤ popvar l := by
-  unfold popvar mean
+  show 0 ≤ mean (l.map (fun v => (v - mean l) * (v - mean l)))
+  unfold mean
   apply div_nonneg
   · apply List.sum_nonneg
     intro v hv
@@ -627,6 +629,188 @@ theorem f64_mean_changes_constant_2d :
     let c : Float := 1.0 / 3.0
     let cell := F64.meanCell c 3 3 (List.replicate 7 (List.replicate 7 c))
     c.toBits = 0x3FD5555555555555 ∧ cell.m.toBits ≠ c.toBits ∧ (cell.out 0.0).toBits = 0x3FD5555555555554 := by
+  decide +kernel
+
+/-! ## float level: a replaced value is measured against the values it averages
+
+"The local replacement (mean without the centre)" of a flagged pixel is a mean of its *neighbours*; the
+flagged pixel is not among the values averaged.  Under the standard model of floating-point arithmetic
+every way of computing that mean — any order of the additions — stays within `2·E·u` times the mean
+*magnitude of the neighbours*, however large the flagged pixel or any other pixel of the image is.  The
+correspondence check demands replaced values within exactly this bound (`replBound`, with the magnitude
+`rabs` the driver computes on the image of absolute values), so an implementation whose error grows with
+the flagged pixel itself (e.g. `(Σ window − x)/(n − 1)`) is outside it as soon as the pixel is large. -/
+
+/-- Any computation (`SExpr`: rounded additions and rounded divisions by counts over the values `v`, in
+any shape, values may enter more than once — so pad values, themselves means of real pixels, are covered)
+of depth at most `E` is within `replBound u E` of its exact value, measured against the same computation
+on the absolute values. -/
+theorem rounded_window_within_bound (fl : Rat → Rat) (u : Rat) (hu : 0 ≤ u)
+    (hfl : ∀ x, |fl x - x| ≤ u * |x|) (v : List Rat) (e : SExpr) (E : Nat) (hd : e.depth ≤ E)
+    (hEu : 2 * (E : Rat) * u ≤ 1) :
+    |e.eval fl v - e.exact v| ≤ replBound u E (e.exact (v.map absR)) := by
+  have h := SExpr.eval_bound fl u hu hfl v e
+  have h1 : (1 + u) ^ e.depth - 1 ≤ 2 * (E : Rat) * u :=
+    (FExpr.pow_sub_one_mono u hu hd).trans (pow_sub_one_le_linear u hu E hEu)
+  unfold replBound
+  exact h.trans (mul_le_mul_of_nonneg_right h1 (SExpr.exact_abs_nonneg v e))
+
+/-- Any order of summation.  `s` adds the values `v[0], …, v[len−1]`, each once, in any order and any
+bracketing (`sumOnly`, leaves a permutation of the indices); the sum is divided by the count; every
+operation is rounded.  The result is within `2·E·u·mean|v|` of `mean v` for every `E ≥ len`. -/
+theorem rounded_mean_any_order (fl : Rat → Rat) (u : Rat) (hu : 0 ≤ u)
+    (hfl : ∀ x, |fl x - x| ≤ u * |x|) (v : List Rat) (s : SExpr) (hs : s.sumOnly = true)
+    (hp : s.leaves.Perm (List.range v.length)) (E : Nat) (hE : v.length ≤ E)
+    (hEu : 2 * (E : Rat) * u ≤ 1) :
+    |(SExpr.divn s v.length).eval fl v - mean v| ≤ replBound u E (mean (v.map absR)) := by
+  have hlen : s.leaves.length = v.length := by rw [hp.length_eq, List.length_range]
+  have hd : (SExpr.divn s v.length).depth ≤ E := by
+    have := SExpr.depth_le_leaves s hs
+    simp only [SExpr.depth]
+    omega
+  have h := rounded_window_within_bound fl u hu hfl v (SExpr.divn s v.length) E hd hEu
+  have hp' : s.leaves.Perm (List.range (v.map absR).length) := by rw [List.length_map]; exact hp
+  have e1 : (SExpr.divn s v.length).exact v = mean v := by
+    simp only [SExpr.exact, mean, SExpr.exact_sum_perm v s hs hp]
+  have e2 : (SExpr.divn s v.length).exact (v.map absR) = mean (v.map absR) := by
+    simp only [SExpr.exact, mean, SExpr.exact_sum_perm (v.map absR) s hs hp', List.length_map]
+  rw [e1, e2] at h
+  exact h
+
+/-- met by: four neighbours `1, 3/2, 5/4, 1` added left to right by a rounding that really errs, binary64
+unit roundoff, the bound the check uses for a window of five (`E = N + 2`) -/
+example : (∀ x : Rat, |(x + (1 / 2 ^ 53) * x) - x| ≤ (1 / 2 ^ 53) * |x|) ∧
+    (SExpr.seqSum 3).sumOnly = true ∧ (SExpr.seqSum 3).leaves.Perm (List.range ([1, 3 / 2, 5 / 4, 1] : List Rat).length) ∧
+    ([1, 3 / 2, 5 / 4, 1] : List Rat).length ≤ 7 ∧ 2 * ((7 : Nat) : Rat) * (1 / 2 ^ 53) ≤ 1 ∧
+    (SExpr.divn (SExpr.seqSum 3) 4).exact [1, 3 / 2, 5 / 4, 1] = 19 / 16 := by
+  refine ⟨fun x => ?_, by decide, by decide, by decide, by norm_num, by decide +kernel⟩
+  have : x + (1 / 2 ^ 53) * x - x = (1 / 2 ^ 53) * x := by ring
+  rw [this, abs_mul, abs_of_pos (by positivity)]
+
+/-- the bound does not see the flagged pixel: the mean of the neighbours' magnitudes, and never less than
+the magnitude of the replacement itself -/
+theorem repl_le_rabs (l : List Rat) : |mean l| ≤ mean (l.map absR) := by
+  unfold mean
+  rw [abs_div, List.length_map, abs_of_nonneg (Nat.cast_nonneg (α := Rat) l.length)]
+  apply div_le_div_of_nonneg_right _ (Nat.cast_nonneg _)
+  induction l with
+  | nil => simp
+  | cons a l ih =>
+    simp only [List.sum_cons, List.map_cons]
+    rw [absR_eq_abs]
+    exact (abs_add_le _ _).trans (add_le_add (le_refl _) ih)
+
+/-- What the driver returns as `rabs` (the mean filter's replacement on the image of absolute values) is,
+for an interior pixel and whatever the pad statistic, the mean magnitude of the pixel's neighbours — the
+pixel itself left out.  1-D. -/
+theorem interior_rabs1 (π : List Rat → Rat) (h : Nat) (x : List Rat) (i : Nat)
+    (hi : h ≤ i) (hn : i + h < x.length) :
+    ((meanCellsP1 π (2 * h + 1) (abs1 x))[i]?).map (·.repl)
+      = some (mean ((slice (i - h) h x ++ slice (i + 1) h x).map absR)) ∧
+    (specMeanCell1 h x i).repl = mean (slice (i - h) h x ++ slice (i + 1) h x) := by
+  refine ⟨?_, rfl⟩
+  rw [interior_any_pad_mean1 π h (abs1 x) i hi (by unfold abs1; rw [List.length_map]; exact hn)]
+  simp only [Option.map_some, specMeanCell1, abs1, slice_map, List.map_append]
+
+/-- a spike of `3·10^17` among neighbours near 1: `rabs` is `19/16`, the spike does not enter -/
+example : ((meanCellsP1 mean 5 (abs1 [1, -5 / 4, 1, -3 / 2, 300000000000000000, 5 / 4, 1, 3 / 2, 1]))[4]?).map (·.repl)
+    = some (19 / 16) := by decide +kernel
+
+/-- 2-D: `rabs` of an interior pixel is the mean magnitude of the other pixels of its window. -/
+theorem interior_rabs2 (π : List Rat → Rat) (h0 h1 n1 : Nat) (x : List (List Rat)) (i j : Nat)
+    (hrect : ∀ r ∈ x, r.length = n1)
+    (hi : h0 ≤ i) (hn : i + h0 < x.length) (hj : h1 ≤ j) (hm : j + h1 < n1) :
+    (((meanCellsP2 π (2 * h0 + 1) (2 * h1 + 1) (abs2 x))[i]?).bind (fun r => r[j]?)).map (·.repl)
+      = some (mean ((others2 h0 h1 x i j).map absR)) ∧
+    (specMeanCell2 h0 h1 x i j).repl = mean (others2 h0 h1 x i j) := by
+  refine ⟨?_, rfl⟩
+  have hrect' : ∀ r ∈ abs2 x, r.length = n1 := by
+    intro r hr
+    unfold abs2 at hr
+    rw [List.mem_map] at hr
+    obtain ⟨q, hq, rfl⟩ := hr
+    rw [List.length_map]; exact hrect q hq
+  rw [interior_any_pad_mean2 π h0 h1 n1 (abs2 x) i j hrect' hi
+    (by unfold abs2; rw [List.length_map]; exact hn) hj hm]
+  simp only [Option.map_some, specMeanCell2, others2_abs2]
+
+example : (∀ r ∈ ([[1, -2, 3], [4, -500000000000, 6], [-7, 8, 9]] : List (List Rat)), r.length = 3) ∧
+    (((meanCellsP2 mean 3 3 (abs2 [[1, -2, 3], [4, -500000000000, 6], [-7, 8, 9]]))[1]?).bind (fun r => r[1]?)).map (·.repl)
+      = some 5 := by
+  decide +kernel
+
+/-- Witness (binary64, evaluated by the kernel) of why the bound must be — and can be — this tight: the
+window `1, 1.5, 3·10^17, 1.25, 1` of a flagged pixel `3·10^17`.  What pewlib computes, the mean of the four
+neighbours with the centre masked out, is `1.1875` exactly; the algebraically equal `(Σ window − x)/(n − 1)`
+is `0.0`, because the neighbours are absorbed when they are added to the centre.  `replBound` for this
+pixel is `2·7·2⁻⁵³·1.1875 ≈ 1.8·10⁻¹⁵`. -/
+theorem f64_subtracted_mean_cancels :
+    let w : List (List Float) := [[1.0, 1.5, 3.0e17, 1.25, 1.0]]
+    (F64.meanCell 3.0e17 0 2 w).mm.toBits = 0x3FF3000000000000 ∧
+    (F64.subtractedMean 3.0e17 w).toBits = 0 ∧
+    F64.bits (F64.rollingMean1 5 3.0 [1.0, 1.25, 1.0, 1.5, 3.0e17, 1.25, 1.0, 1.5, 1.0])
+      = F64.bits [1.0, 1.25, 1.0, 1.5, 1.1875, 1.25, 1.0, 1.5, 1.0] := by
+  decide +kernel
+
+/-! ## locality, and the pixel exactly on the boundary -/
+
+/-- Mean filter, 1-D: the output at a pixel at least `h` from both ends is a function of its window
+`x[i-h .. i+h]` alone — two signals (of any lengths) that agree there agree at `i` after filtering.  The
+rest of the signal, however large its values, does not enter: this is what allows the correspondence
+check to bound the rounding of a pixel by the magnitudes inside that pixel's own window. -/
+theorem interior_local_mean1 (h : Nat) (t : Option Rat) (x y : List Rat) (i : Nat)
+    (hi : h ≤ i) (hx : i + h < x.length) (hy : i + h < y.length)
+    (hw : slice (i - h) (2 * h + 1) x = slice (i - h) (2 * h + 1) y) :
+    (rollingMean1 (2 * h + 1) t x)[i]? = (rollingMean1 (2 * h + 1) t y)[i]? := by
+  have e := specMeanCell1_local h i x y hi hx hy hw
+  have ex : at1 x i = at1 y i := congrArg Cell.x e
+  rw [(out_cases_mean1 h t x i hi hx).2, (out_cases_mean1 h t y i hi hy).2, e, ex]
+
+/-- the same window `1, 3/2, [3·10^17], 5/4, 1` inside two different signals -/
+example : slice (4 - 2) (2 * 2 + 1) ([7, 7, 1, 3 / 2, 300000000000000000, 5 / 4, 1, 9, 9] : List Rat)
+    = slice (4 - 2) (2 * 2 + 1) ([0, -100000000000000000000, 1, 3 / 2, 300000000000000000, 5 / 4, 1, 0] : List Rat) := by
+  decide +kernel
+
+/-- Mean filter, 2-D, independent odd windows: the output at `(i, j)` is a function of the
+`(2h0+1)×(2h1+1)` window around it. -/
+theorem interior_local_mean2 (h0 h1 n1 m1 : Nat) (t : Option Rat) (x y : List (List Rat)) (i j : Nat)
+    (hrx : ∀ r ∈ x, r.length = n1) (hry : ∀ r ∈ y, r.length = m1)
+    (hi : h0 ≤ i) (hx : i + h0 < x.length) (hy : i + h0 < y.length)
+    (hj : h1 ≤ j) (hxm : j + h1 < n1) (hym : j + h1 < m1)
+    (hw : (slice (i - h0) (2 * h0 + 1) x).map (slice (j - h1) (2 * h1 + 1))
+        = (slice (i - h0) (2 * h0 + 1) y).map (slice (j - h1) (2 * h1 + 1))) :
+    ((rollingMean2 (2 * h0 + 1) (2 * h1 + 1) t x)[i]?).bind (fun r => r[j]?)
+      = ((rollingMean2 (2 * h0 + 1) (2 * h1 + 1) t y)[i]?).bind (fun r => r[j]?) := by
+  have e := specMeanCell2_local h0 h1 n1 m1 i j x y hrx hry hi hx hy hj hxm hym hw
+  have ex : at2 x i j = at2 y i j := congrArg Cell.x e
+  rw [(out_cases_mean2 h0 h1 n1 t x i j hrx hi hx hj hxm).2,
+    (out_cases_mean2 h0 h1 m1 t y i j hry hi hy hj hym).2, e, ex]
+
+example : (slice (1 - 1) (2 * 1 + 1) ([[1, 2, 3, 50], [4, 9, 6, 50], [7, 8, 9, 50]] : List (List Rat))).map (slice (1 - 1) (2 * 1 + 1))
+    = (slice (1 - 1) (2 * 1 + 1) ([[1, 2, 3], [4, 9, 6], [7, 8, 9], [0, 0, 0]] : List (List Rat))).map (slice (1 - 1) (2 * 1 + 1)) := by
+  decide +kernel
+
+/-- "By MORE than the threshold times the spread": a pixel whose deviation equals the threshold times
+the spread exactly is kept — mean filter in the squared form, median filter in the linear form; one that
+exceeds it is replaced.  (With `out_cases_*`: an interior pixel exactly on the boundary comes back
+unchanged.  The check demands this wherever `meanDecisionExact` certifies an exact float evaluation.) -/
+theorem boundary_is_kept (c : Cell) (t : Rat) :
+    (c.d * c.d = t * t * c.s → c.outSq (some t) = c.x) ∧ (c.d = t * c.s → c.outLin (some t) = c.x) ∧
+    (c.d * c.d > t * t * c.s → c.outSq (some t) = c.repl) ∧ (c.d > t * c.s → c.outLin (some t) = c.repl) := by
+  refine ⟨fun h => ?_, fun h => ?_, fun h => ?_, fun h => ?_⟩
+  · simp [Cell.outSq, Cell.outlierSq, h]
+  · simp [Cell.outLin, Cell.outlierLin, h]
+  · simp [Cell.outSq, Cell.outlierSq, h]
+  · simp [Cell.outLin, Cell.outlierLin, h]
+
+/-- the planted window of the tie class: neighbours `2, 18, 2, 18` (mean 10, variance 64), pixel `25`
+(window mean 13, deviation 12), threshold `3/2`: `12² = (3/2)²·64`, kept; pixel `30` is replaced; and a
+float evaluation of the first is exact (`meanDecisionExact`, binary64) -/
+example : (specMeanCell1 2 [2, 18, 25, 2, 18] 2).d = 12 ∧ (specMeanCell1 2 [2, 18, 25, 2, 18] 2).s = 64 ∧
+    (specMeanCell1 2 [2, 18, 25, 2, 18] 2).outSq (some (3 / 2)) = 25 ∧
+    (specMeanCell1 2 [2, 18, 30, 2, 18] 2).outSq (some (3 / 2)) = 10 ∧
+    meanDecisionExact 53 (-1074) (some (3 / 2)) 25 [2, 18, 25, 2, 18] [2, 18, 2, 18] = true ∧
+    meanDecisionExact 53 (-1074) (some (3 / 2)) (1 / 10) [1 / 10, 1 / 5, 1 / 10] [1 / 10, 1 / 10] = false := by
   decide +kernel
 
 end Pew.Filters
